@@ -768,6 +768,9 @@ func (w *World) fieldMutations(within map[*ssa.Function]bool) map[string][]field
 						if w.callLocalPtr(fa.X) {
 							continue // an object living in a local variable of a caller, handed down by address
 						}
+						if _, local := w.callLocalObjects(fa.X, 0); local {
+							continue // an object that one call allocates, hands down and drops (locals.go): nothing survives the call
+						}
 						if pt, ok := fa.X.Type().Underlying().(*types.Pointer); ok {
 							if n, ok := pt.Elem().(*types.Named); ok && n.Obj().Pkg() == w.TPkg {
 								k := n.Obj().Name() + "." + w.fieldName(n.Obj().Name(), fa.Field)
@@ -788,7 +791,7 @@ func (w *World) fieldMutations(within map[*ssa.Function]bool) map[string][]field
 					if _, fresh := x.X.(*ssa.Alloc); fresh {
 						continue
 					}
-					if w.callLocalPtr(x.X) {
+					if _, local := w.callLocalObjects(x.X, 0); local || w.callLocalPtr(x.X) {
 						continue
 					}
 					pt, ok := x.X.Type().Underlying().(*types.Pointer)
